@@ -256,7 +256,7 @@ def _ivar_over_buffer(ts, lab, e):
     if b["array"] and b["array"][0] == "self" and len(b["array"]) == 2 and b["array"][1] in ts.buffers:
         return True
     end = b["end"]
-    return b["array"] is None and isinstance(end, tuple) and ((end[0] == "pre" and end[1].split(".")[-1] in ts.len_fields) or end[0] == "len")
+    return b["array"] is None and isinstance(end, tuple) and ((end[0] == "pre" and (end[1].count(".") == 1 and end[1].split(".")[-1] in ts.len_fields)) or end[0] == "len")
 
 
 def _try_cursor(ts, x, posts, P, usize_state):
@@ -280,10 +280,10 @@ def _try_cursor(ts, x, posts, P, usize_state):
                 if ok:
                     continue
                 return False, "%s: `%s + 1` stored without the guard `%s + 1 < period`" % (lab, x, x)
-            if leaf[0] == "%" and leaf[2][0] == "pre" and leaf[2][1].split(".")[-1] in P:
+            if leaf[0] == "%" and leaf[2][0] == "pre" and (leaf[2][1].count(".") == 1 and leaf[2][1].split(".")[-1] in P):
                 pf_used = leaf[2][1].split(".")[-1]
                 continue
-            if leaf[0] == "%" and leaf[2][0] == "len" and isinstance(leaf[2][1], tuple) and leaf[2][1][0] == "pre" and leaf[2][1][1].split(".")[-1] in ts.buffers and P:
+            if leaf[0] == "%" and leaf[2][0] == "len" and isinstance(leaf[2][1], tuple) and leaf[2][1][0] == "pre" and (leaf[2][1][1].count(".") == 1 and leaf[2][1][1].split(".")[-1] in ts.buffers) and P:
                 pf_used = P[0]  # modulus = the buffer's own length (= period by the buffer invariant)
                 continue
             if leaf[0] == "pre" and leaf[1].startswith("self.") and leaf[1].split(".", 1)[1] in usize_state:
